@@ -13,6 +13,7 @@ from vlib import VI, VB, VL
 import regen_c01
 
 PID = "C01"
+sys.set_int_max_str_digits(0)
 THEOREMS = ["ivt_inverse", "ivt_words_untouched_elsewhere", "ivt_words_describe", "flags_decode", "len_is_sum",
             "disassemble_cuts_collect", "mbi_roundtrip_except_known", "mbi_roundtrip_refuted", "reexport_stable",
             "mro_resolution_all_classes", "wf_class_sweep", "class_selection_sweep", "class_selection_refuted",
@@ -176,7 +177,7 @@ def gen_cases(tier, rng, db):
             if thorough or ci not in seen:
                 reps.append((f["family"], t, a, c, ci in seen))
                 seen.add(ci)
-    nvar = 4 if thorough else 12
+    nvar = 4 if thorough else 8
     k = 0
     for fam, t, a, c, dup in reps:
         ms = set(mixset(c))
@@ -189,14 +190,16 @@ def gen_cases(tier, rng, db):
                 ln = 0xC00 + 64 + 4 * v       # BCA based families need the whole header area
             k += 1
             app = gen_app(rng, ln)
+            if not supported(c):
+                app = app[:0x40C] + bytes([rng.choice([0xFF, 0xFE, 0x90])]) + app[0x40D:]   # valid FCF life cycle byte
             cases.append(("valid images", {"family": fam, "target": t, "auth": a, "app": app.hex(),
                                            "opts": gen_opts(rng, db, fam, c, v)}))
         if not supported(c):
             continue
         # crafted: payload that ends in something resembling a relocation-table marker
         if not dup:
-            for j, tail in enumerate([reloc_tail(0, 0x40), reloc_tail(1, 0x40), reloc_tail(0, 0x40, version=1),
-                                      reloc_tail(2, 0)]):
+            tails = [reloc_tail(0, 0x40), reloc_tail(1, 0x40), reloc_tail(0, 0x40, version=1), reloc_tail(2, 0)]
+            for j, tail in enumerate(tails if "MixinRelocTable" in ms else tails[:1]):
                 app = gen_app(rng, 0x80 + 4 * j)[:-16] + tail
                 cases.append(("crafted relocation-like tails", {"family": fam, "target": t, "auth": a, "app": app.hex(),
                                                                 "opts": gen_opts(rng, db, fam, c, 0)}))
@@ -218,7 +221,7 @@ def gen_cases(tier, rng, db):
                                                                   "opts": gen_opts(rng, db, fam, c, v)}))
         # rejected inputs
         if not dup:
-            bad = [gen_app(rng, 0), gen_app(rng, 4), gen_app(rng, 0x37), b"\x11\x22\x33\x44" * 20]
+            bad = [gen_app(rng, rng.choice([0, 4, 0x34])), gen_app(rng, 0x37), b"\x11\x22\x33\x44" * 20]
             for b in bad:
                 cases.append(("rejected inputs", {"family": fam, "target": t, "auth": a, "app": b.hex(),
                                                   "opts": gen_opts(rng, db, fam, c, 1)}))
@@ -281,23 +284,119 @@ def crypto_value(case, res):
 
 
 def lit(v):
-    """Coq literal with byte strings written as one number (much faster to parse than a list of 1000s of numerals)."""
+    """Coq literal; byte strings as lists of primitive 63-bit integers, 7 bytes each (MbiIoModel.B)."""
     t, x = v
     if t == "b":
-        return f"VBytes (bytes_lit {len(x)} {int.from_bytes(x, 'little')}%N)" if x else "VBytes []"
+        return f"B {len(x)} [" + "; ".join(f"{int.from_bytes(x[i:i + 7], 'little')}%uint63" for i in range(0, len(x), 7)) + "]"
     if t == "l":
         return "VList [" + "; ".join("(" + lit(y) + ")" for y in x) + "]"
     return vlib.coq_lit(v)
 
 
-def uncompact(v):
-    """inverse of the model's vcompact on parsed values"""
-    t, x = v
-    if t == "l":
-        if len(x) == 2 and x[0][0] == "i" and x[1][0] == "i" and x[0][1] >= 0 and x[1][1] >= 0 and x[1][1] < (1 << (8 * x[0][1])) \
-                and not (x[0][1] == 0 and False):
-            return None
-    return v
+_CTOK = __import__("re").compile(r"\s*(\[|\]|\(|\)|;|-?\d+(?:%[A-Za-z0-9]+)?|[A-Za-z_][\w.]*)")
+
+
+def parse_cvalues(text):
+    """Parse the terms printed by `Eval vm_compute in (e : cvalue)`."""
+    out = []
+    for m in __import__("re").finditer(r"(?s)=\s*(.*?)\s*:\s*cvalue\b", text):
+        toks = _CTOK.findall(m.group(1))
+        pos = [0]
+
+        def nxt():
+            t = toks[pos[0]]
+            pos[0] += 1
+            return t
+
+        def peek():
+            return toks[pos[0]] if pos[0] < len(toks) else None
+
+        def num():
+            t = nxt()
+            if t == "(":
+                t = nxt()
+                assert nxt() == ")"
+                if peek() and peek().startswith("%"):
+                    nxt()
+            return int(t.split("%")[0])
+
+        def lst(item):
+            assert nxt() == "["
+            r = []
+            if peek() == "]":
+                nxt()
+                return r
+            while True:
+                r.append(item())
+                t = nxt()
+                if t == "]":
+                    return r
+                assert t == ";", t
+
+        def val():
+            t = nxt()
+            if t == "(":
+                v = val()
+                assert nxt() == ")"
+                return v
+            if t == "CInt":
+                return ("i", num())
+            if t == "CErr":
+                return ("e", num())
+            if t == "CBytes":
+                n = num()
+                ws = lst(num)
+                return ("b", b"".join(w.to_bytes(7, "little") for w in ws)[:n])
+            if t == "CList":
+                return ("l", lst(val))
+            raise ValueError("unexpected token " + t)
+        out.append(val())
+    return out
+
+
+def run_model(tag, exprs, shard, timeout=1500, jobs=8):
+    """like vlib.run_model_cases, for expressions of type MbiIoModel.cvalue"""
+    import glob
+    import subprocess
+    import time
+    d = os.path.join(vlib.COQ, "Cases")
+    os.makedirs(d, exist_ok=True)
+    for f in glob.glob(os.path.join(d, f"{tag}_*")) + glob.glob(os.path.join(d, f".{tag}_*")):
+        os.remove(f)
+    shards = [exprs[i:i + shard] for i in range(0, len(exprs), shard)]
+    names = [f"{tag}_{k}" for k in range(len(shards))]
+    for name, sh_ in zip(names, shards):
+        with open(os.path.join(d, name + ".v"), "w") as f:
+            f.write("From Coq Require Import ZArith NArith List Uint63.\nRequire Import Value Bytes MbiMixinModel GenMbi MbiModel MbiIoModel.\n"
+                    "Import ListNotations.\nSet Printing Width 2000000000.\nSet Printing Depth 2000000000.\n"
+                    + "".join(f"Eval vm_compute in ({e_}).\n" for e_ in sh_))
+    results = [None] * len(names)
+    running, idx = {}, 0
+    while idx < len(names) or running:
+        while idx < len(names) and len(running) < jobs:
+            n = names[idx]
+            running[idx] = subprocess.Popen(
+                f"ulimit -s unlimited 2>/dev/null; timeout {timeout} coqc -R . V -w -all Cases/{n}.v > Cases/{n}.out 2>&1",
+                shell=True, cwd=vlib.COQ)
+            idx += 1
+        done = [i for i, p in running.items() if p.poll() is not None]
+        if not done:
+            time.sleep(0.05)
+            continue
+        for i in done:
+            p = running.pop(i)
+            out = open(os.path.join(d, names[i] + ".out")).read()
+            if p.returncode != 0:
+                raise RuntimeError(f"model evaluation failed ({names[i]}): {out[-2000:]}")
+            results[i] = parse_cvalues(out)
+    flat = []
+    for r, sh_ in zip(results, shards):
+        if len(r) != len(sh_):
+            raise RuntimeError("model returned wrong number of results")
+        flat += r
+    for f in glob.glob(os.path.join(d, f"{tag}_*")) + glob.glob(os.path.join(d, f".{tag}_*")):
+        os.remove(f)
+    return flat
 
 
 def unvalue(v):
@@ -398,6 +497,12 @@ def oracle(case, res, db):
         cls.append("manifest-default-tz")
     if "MixinCertBlockV1" in ms and ob.get("tz", [2])[0] == 1:
         cls.append("certv1-custom-tz")
+    if manifest and (ob.get("manifest") or {}).get("digest"):
+        cls.append("digest-present")
+    if kind == "bca" and "ExportMixinAppFcf" in ms:
+        cls.append("appfcf-class")
+    if kind == "bca" and "MixinBca" in ms and w32(app_in, 0x24) & 0x3F != res["image_type"]:
+        cls.append("no-ivt-type-bits")
     sel = res.get("parsed_mixins_short")
     if sel is not None and sorted(sel) != sorted(ms) and res.get("parsed_class") != res.get("class"):
         cls.append("image-type-ambiguity(" + "+".join(m for m in sorted(set(ms) ^ set(sel))) + ")")
@@ -462,6 +567,8 @@ def oracle(case, res, db):
     for name, key in (("load-address", "load_address"), ("image-version", "image_version"), ("subtype", "image_subtype"),
                       ("firmware-version", "firmware_version"), ("hw-key", "hw_key"), ("key-store", "key_store"),
                       ("ctr-iv", "ctr_iv"), ("tz", "tz"), ("lifecycle", "lifecycle")):
+        if key == "lifecycle" and ob.get(key) == 0xFF:
+            continue                  # NOT_SET: "keep what the application says", not a setting of its own
         if key in ob:
             if key not in p:
                 fail(f"roundtrip:{name}-lost", f"setting {key} = {ob[key]!r} is not recovered by parse (parsed with class {res.get('parsed_class')})")
@@ -478,13 +585,30 @@ def oracle(case, res, db):
     if manifest and (p.get("manifest") or {}).get("digest") != (ob.get("manifest") or {}).get("digest"):
         fail("roundtrip:digest", "manifest digest algorithm differs after parse")
     # ---- re-export reproduces every byte outside the signature
+    if res.get("create_config") != "ok":
+        fail("create_config:fails", f"create_config of the parsed image fails: {res.get('create_config')}")
+        return out
     for step, key in (("reexport", "image2"), ("reexport_direct", "image3")):
         if res.get(step) != "ok":
             fail(f"{step}:fails", f"the parsed image cannot be exported again: {res.get(step)}")
             continue
         im2 = bytes.fromhex(res[key])
         a, b = bytearray(image), bytearray(im2)
-        for src, tgt, sigs in ((image, a, res.get("signed")), (im2, b, res.get("signed2" if key == "image2" else "signed3"))):
+        isk = (ob.get("cert") or {}).get("isk_signature")
+        sigs1 = list(res.get("signed") or []) + ([["", isk]] if isk else [])
+        sigs2 = list(res.get("signed2" if key == "image2" else "signed3") or []) + ([["", isk]] if isk and key == "image3" else [])
+        if isk and key == "image2" and manifest:
+            # the ISK certificate is signed again (ECDSA, randomised): words derived from it are signature dependent too
+            if "MixinManifestCrc" in ms:
+                mo = w32(image, 0x28) + len(bytes.fromhex(ob["cert"]["export"]))
+                tl = w32(image, mo + 12)
+                for t in (a, b):
+                    t[mo + tl - 4:mo + tl] = bytes(4)
+            dgl = {"sha256": 32, "sha384": 48, "sha512": 64}.get((ob.get("manifest") or {}).get("digest"), 0)
+            if dgl:
+                for t in (a, b):
+                    t[len(t) - dgl:] = bytes(dgl)
+        for src, tgt, sigs in ((image, a, sigs1), (im2, b, sigs2)):
             for _, s in sigs or []:
                 s = bytes.fromhex(s)
                 pos = bytes(src).rfind(s)
@@ -497,7 +621,9 @@ def oracle(case, res, db):
             first = next((i for i in range(min(len(a), len(b))) if a[i] != b[i]), min(len(a), len(b)))
             fail(f"{step}:differs", f"re-exported image differs outside the signature: lengths {len(a)}/{len(b)}, {n} bytes, first at {first:#x}")
     if res.get("schema2") not in (None, "ok"):
-        fail("create_config:schema-rejects", f"configuration written by create_config is refused by the schema: {res['schema2']}")
+        m = __import__("re").search(r"data\.(\w+)", str(res["schema2"])) or __import__("re").search(r"Missing field\(s\): (\w+)", str(res["schema2"]))
+        fail(f"create_config:schema-rejects({m.group(1) if m else '?'})",
+             f"configuration written by create_config is refused by the schema: {res['schema2']}")
     return out
 
 
@@ -535,7 +661,7 @@ def run(tier):
         rep.obligation("translate:device database + mbi_mixin classes -> Gen/GenMbi.v", True)
     except Exception as ex:  # noqa
         rep.obligation("translate:device database + mbi_mixin classes -> Gen/GenMbi.v", False, repr(ex))
-    model_ok, mlog = vlib.coq_make(["Model/MbiModel.vo"])
+    model_ok, mlog = vlib.coq_make(["Model/MbiIoModel.vo"])
     vlib.check_theorems(rep, PID, THEOREMS, ["Proofs/MbiProofs.vo"])
     vlib.audit(rep)
     if d is None:
@@ -589,24 +715,18 @@ def run(tier):
             st["distinct"].add((db.comp_index(c), len(res["image"]), json.dumps(case["opts"], sort_keys=True)[:200]))
             cv = class_value(c)
             kv = crypto_value(case, res)
-            exprs.append(f"run_case 1 [{vlib.coq_lit(cv)}; {vlib.coq_lit(mbi_value(res['input']))}; {vlib.coq_lit(kv)}]")
-            plan.append((idx, "export"))
-            exprs.append(f"run_case 4 [{vlib.coq_lit(cv)}; {vlib.coq_lit(mbi_value(res['input']))}]")
-            plan.append((idx, "lens"))
-            image = bytes.fromhex(res["image"])
-            exprs.append(f"run_case 3 [VInt {db.fidx[case['family']]}; {vlib.coq_lit(VB(image[:64]))}]")
-            plan.append((idx, "select"))
+            f = db.fams[db.fidx[case["family"]]]
+            pcv, sigsz, dekv = VL([]), 0, VL([])
             if res.get("parsed_class"):
-                f = db.fams[db.fidx[case["family"]]]
                 pc = f["classes"][res["parsed_class"]]
                 if supported(pc):
-                    cb = res["input"].get("cert") or {}
+                    pcv = class_value(pc)
+                    sigsz = (res["input"].get("cert") or {}).get("signature_size") or 0
                     dek = res["input"].get("hmac_key") if case.get("dek", True) else None
-                    exprs.append(f"run_case 2 [{vlib.coq_lit(class_value(pc))}; VInt {f['tz_size']}; "
-                                 f"VInt {cb.get('signature_size') or 0}; "
-                                 f"{vlib.coq_lit(VL([]) if not dek else VL([VB(bytes.fromhex(dek))]))}; "
-                                 f"{vlib.coq_lit(VB(image))}; {vlib.coq_lit(kv)}]")
-                    plan.append((idx, "parse"))
+                    dekv = VL([]) if not dek else VL([VB(bytes.fromhex(dek))])
+            exprs.append(f"io_all ({db.fidx[case['family']]}) ({lit(cv)}) ({lit(mbi_value(res['input']))}) ({lit(kv)}) "
+                         f"({lit(pcv)}) {f['tz_size']} {sigsz} ({lit(dekv)})")
+            plan.append((idx, "all"))
         else:
             # rejected at build time: the model must reject as well (no crypto needed)
             app = pad4(bytes.fromhex(case["app"]))
@@ -619,8 +739,8 @@ def run(tier):
                 ob["cert"] = {"export": "00" * 64, "kind": "CertBlockV1", "signature_size": 256}
             elif "MixinCertBlockV21" in mixset(c):
                 ob["cert"] = {"export": "00" * 64, "kind": "CertBlockV21", "signature_size": 64}
-            exprs.append(f"run_case 1 [{vlib.coq_lit(class_value(c))}; {vlib.coq_lit(mbi_value(ob))}; "
-                         f"{vlib.coq_lit(VL([VB(b''), VB(b''), VB(b''), VB(b'')]))}]")
+            exprs.append(f"io_case 1 [{lit(class_value(c))}; {lit(mbi_value(ob))}; "
+                         f"{lit(VL([VB(b''), VB(b''), VB(b''), VB(b'')]))}]")
             plan.append((idx, "reject"))
     # ---- model
     ndis = 0
@@ -628,51 +748,59 @@ def run(tier):
     if model_ok:
         try:
             t_model = __import__("time").time()
-            mres = vlib.run_model_cases("c01", "Value Bytes MbiMixinModel GenMbi MbiModel", exprs,
-                                        shard=max(20, min(120, len(exprs) // 14 + 1)), timeout=1500, jobs=8)
+            mres = run_model("c01", exprs, shard=max(10, min(60, len(exprs) // 16 + 1)), timeout=1500, jobs=8)
             vlib.log(f"[C01] model evaluated {len(exprs)} expressions in {__import__('time').time() - t_model:.1f} s")
-            for (idx, what), mv in zip(plan, mres):
+            for (idx, what), mv0 in zip(plan, mres):
                 stream, case = cases[idx]
                 res = results[idx]
-                bad = None
-                if what == "export":
-                    if mv != ("b", bytes.fromhex(res["image"])):
-                        got = mv[1] if mv[0] == "b" else mv
-                        img = bytes.fromhex(res["image"])
-                        if mv[0] == "b":
-                            first = next((i for i in range(min(len(got), len(img))) if got[i] != img[i]), min(len(got), len(img)))
-                            bad = f"export differs: model {len(got)} B, impl {len(img)} B, first difference at {first:#x}"
-                        else:
-                            bad = f"export: model {mv}, impl ok"
-                elif what == "lens":
-                    if mv[0] != "l" or [x[1] for x in mv[1][:2]] != [res["total_len"], res["app_len"]]:
-                        bad = f"total_len/app_len: model {unvalue(mv)}, impl {[res['total_len'], res['app_len']]}"
-                elif what == "select":
-                    f = db.fams[db.fidx[case["family"]]]
-                    if res.get("parsed_class"):
-                        want = next(([regen_c01.TARGETS.index(t), regen_c01.AUTHS.index(a)] for t, a, cn in f["offers"]
-                                     if cn == res["parsed_class"]), None)
-                        if mv[0] != "l" or [x[1] for x in mv[1][:2]] != want:
-                            bad = f"class selection: model {unvalue(mv)}, impl {res['parsed_class']}"
-                elif what == "parse":
-                    if res.get("parse") != "ok":
-                        k = res["parse"][1]
+                bads = []
+                parts = [(what, mv0)] if what == "reject" else list(zip(("export", "lens", "select", "parse"), mv0[1]))
+                for what, mv in parts:
+                    bad = None
+                    if what == "export":
+                        if mv != ("b", bytes.fromhex(res["image"])):
+                            img = bytes.fromhex(res["image"])
+                            if mv[0] == "b":
+                                got = mv[1]
+                                first = next((i for i in range(min(len(got), len(img))) if got[i] != img[i]), min(len(got), len(img)))
+                                bad = f"export differs: model {len(got)} B, impl {len(img)} B, first difference at {first:#x}"
+                            else:
+                                bad = f"export: model {mv}, impl ok"
+                    elif what == "lens":
+                        if mv[0] != "l" or [x[1] for x in mv[1][:2]] != [res["total_len"], res["app_len"]]:
+                            bad = f"total_len/app_len: model {unvalue(mv)}, impl {[res['total_len'], res['app_len']]}"
+                    elif what == "select":
+                        f = db.fams[db.fidx[case["family"]]]
+                        if res.get("parsed_class"):
+                            want = next(([regen_c01.TARGETS.index(t), regen_c01.AUTHS.index(a)] for t, a, cn in f["offers"]
+                                         if cn == res["parsed_class"]), None)
+                            if mv[0] != "l" or [x[1] for x in mv[1][:2]] != want:
+                                bad = f"class selection: model {unvalue(mv)}, impl {res['parsed_class']}"
+                        elif mv[0] != "e" and res.get("parse") != "ok" and "Unsupported MBI type" in str(res.get("parse")):
+                            bad = f"class selection: model {unvalue(mv)}, impl finds no class"
+                    elif what == "parse":
+                        if mv == ("l", []):
+                            continue
+                        if res.get("parse") != "ok":
+                            k = res["parse"][1]
+                            if mv != ("e", k):
+                                bad = f"parse: impl error kind {k} ({res['parse'][2] if len(res['parse']) > 2 else ''}), model {str(unvalue(mv))[:80]}"
+                        elif mv[0] == "e":
+                            bad = f"parse: impl ok, model error {mv[1]}"
+                        elif res.get("observe") == "ok":
+                            pm = res.get("parsed_mixins_short", [])
+                            dfs = same_parse(parsed_view(res["parsed"], pm), model_view(unvalue(mv)), pm)
+                            if dfs:
+                                bad = f"parse result differs in {dfs}"
+                        if res.get("parse") == "ok":
+                            stats[stream]["parsed"] += 1
+                    elif what == "reject":
+                        k = build_outcome(res)[1]
                         if mv != ("e", k):
-                            bad = f"parse: impl error kind {k} ({res['parse'][2] if len(res['parse']) > 2 else ''}), model {str(unvalue(mv))[:80]}"
-                    elif mv[0] == "e":
-                        bad = f"parse: impl ok, model error {mv[1]}"
-                    elif res.get("observe") == "ok":
-                        pm = res.get("parsed_mixins_short", [])
-                        dfs = same_parse(parsed_view(res["parsed"], pm), model_view(unvalue(mv)), pm)
-                        if dfs:
-                            bad = f"parse result differs in {dfs}"
-                    if res.get("parse") == "ok":
-                        stats[stream]["parsed"] += 1
-                elif what == "reject":
-                    k = build_outcome(res)[1]
-                    if mv != ("e", k):
-                        bad = f"rejection: impl error kind {k} at {build_outcome(res)[2]} ({build_outcome(res)[3][:80]}), model {str(unvalue(mv))[:60]}"
-                if bad:
+                            bad = f"rejection: impl error kind {k} at {build_outcome(res)[2]} ({build_outcome(res)[3][:80]}), model {str(unvalue(mv))[:60]}"
+                    if bad:
+                        bads.append(bad)
+                for bad in bads:
                     ndis += 1
                     dis_streams.add(stream)
                     if ndis <= int(os.environ.get('C01_DEBUG', '8')):
